@@ -735,9 +735,12 @@ func runC14(c *Ctx) {
 	}
 	gen.New(c.Seed, "c14-order", 0).Shuffle(len(cells), func(i, j int) { cells[i], cells[j] = cells[j], cells[i] })
 	results := make([]*c14Result, len(cells))
+	satDone := make(chan struct{})
+	go func() { defer close(satDone); c14Saturated(c) }() // about 5 s of waiting: overlaps with the matrix
 	parallelFor(len(cells), 40, nil, func(i int) {
 		results[i] = c14RunCell(c.Seed, cells[i])
 	})
+	defer func() { <-satDone }()
 	type cand struct {
 		res *c14Result
 		f   c14Finding
